@@ -253,7 +253,7 @@ func emitOverrideSweep(emit func(op string, args ...string)) {
 }
 
 func bindGen(r *rand.Rand, count int, emit func(op string, args ...string)) {
-	if count >= 1000 {
+	if genSeed%1000 == 0 {
 		emitOverrideSweep(emit)
 	}
 	junk := []string{":", "+", ",", "execute", "(", ")", "a", "reload", "[", "]", "~", "up", "change-query", "x", " ", "::", ",,,", ",:", "+:", "pos", "put", "é"}
